@@ -20,23 +20,23 @@ EXHAUSTIVE = {"quick": "all ADMG(n), ANC(n) n<=3, DAG(4), bidirected-only and un
 TRUSTED = ["networkx compose / connected_components / predecessors / node_connected_component taken at face value",
            "Graph/MSep.v (definition of m-separation by m-connecting paths) and Graph/MSepDec.v (msep_dec reflects it, proved)"]
 LEVEL_TEXT = ("Coq theorems about the executable model (moral_adj / moral_edges / moral_sep), all closed under the global context. "
-              "UNBOUNDED (all graphs, all sizes): moral_adjacency (adjacent in the moral graph <-> joined by an edge or by a simple "
-              "path whose inner nodes are all colliders), moral_nodes / moral_edges_spec / moral_graph_adjacent (exactly G's nodes; "
-              "the edge list is that relation), moral_dag_is_nx (no bidirected edge: skeleton + married co-parents = "
-              "networkx.moral_graph), and one direction of the criterion, moral_criterion_fwd: a vertex cut Z in the moral graph of the "
-              "anterior subgraph m-separates X and Y (m-connecting path => Z-avoiding moral connection; needs only 'no arrowhead at an "
-              "endpoint of an undirected edge'). BOUNDED by kernel computation (vm_compute): the separation criterion "
-              "msep g X Y Z <-> Z is a vertex cut in the moral graph of the anterior subgraph, for ALL graphs of the C01 domain on "
-              "<= 3 nodes (moral_criterion_bounded_3) and for all graphs on 4 nodes with at most one edge per pair incl. all DAGs "
-              "(moral_criterion_bounded_anc_4 / _dag_4), all pairwise disjoint X, Y, Z. NOT proved for all sizes: the converse direction of the criterion (m-separated => vertex cut; "
-              "full statement kept in C12/Spec.v, moral_criterion_stmt); 4-node graphs with a directed and a bidirected edge on one "
-              "pair and all larger graphs are covered by correspondence only (extracted oracle msep_dec up to n=5, "
-              "implementation's own m_separated beyond). The implementation is tied to the model by differential correspondence "
-              "on every run (tie K).")
+              "BOTH clauses of the property are proved UNBOUNDED (all graphs of the C01 domain, all sizes): moral_adjacency (adjacent in "
+              "the moral graph <-> joined by an edge or by a simple path whose inner nodes are all colliders), moral_nodes / "
+              "moral_edges_spec / moral_graph_adjacent (exactly G's nodes; the edge list is that relation), moral_dag_is_nx (no "
+              "bidirected edge: skeleton + married co-parents = networkx.moral_graph), and the separation criterion moral_criterion / "
+              "moral_criterion_full: for an acyclic directed layer, no arrowhead at an endpoint of an undirected edge and pairwise "
+              "disjoint X, Y, Z inside V: msep g X Y Z (m-connecting paths, Graph/MSep.v) <-> Z is a vertex cut between X and Y in the "
+              "moral graph of the subgraph induced by the anterior closure of X, Y, Z. Halves: moral_criterion_fwd (vertex cut => "
+              "m-separated; path stays in the anterior subgraph, collider sections collapse to moral edges) and moral_criterion_bwd "
+              "(m-separated => vertex cut; open-walk construction with re-routing of colliders that are not ancestors of Z, then "
+              "Graph/Walks.open_walk_to_path). Additionally and independently BOUNDED by kernel computation (vm_compute): the same "
+              "criterion for all graphs of the C01 domain on <= 3 nodes and the single-edge class on 4 nodes "
+              "(moral_criterion_bounded_3 / _anc_4 / _dag_4). The implementation is tied to the model by differential "
+              "correspondence on every run (tie K).")
 LEVEL_NOTE = ("the model is the repaired rule (clique on district + its parents), /repo carries the fix f7202d6; statements quantify over "
               "sorted duplicate-free node subsets (Base.ListSet.sublists) of 0..n-1 and kind lists (C12/Enum.v); the circle layer is "
               "not part of the moral graph (domain of C01 has none)")
-TECHNIQUE = ("Coq proof (model = spec by path surgery and closure lemmas, unbounded) + bounded kernel computation over a verified "
+TECHNIQUE = ("Coq proof (model = spec for both clauses, all sizes: path surgery, closure lemmas, open-walk re-routing) + bounded kernel computation over a verified "
              "finite enumeration (criterion, n<=3, n=4 single-edge class) + extracted-model correspondence (OCaml extraction, "
              "vm_compute spot checks)")
 SPOT_N = 25
